@@ -343,6 +343,7 @@ pub fn run(args: &[String]) -> i32 {
         for line in text.lines() {
             let t: Vec<&str> = line.split_whitespace().collect();
             if t.len() >= 3 && t[0] == "I" {
+                println!("R{}", &line[1..]);
                 println!("{}", line);
                 println!("O {} {}", t[1], exec(&t[2..]));
             }
@@ -352,6 +353,7 @@ pub fn run(args: &[String]) -> i32 {
     let mut g = Gen { rng: Rng::new(seed) };
     for id in 0..n {
         let input = gen_case(&mut g, id);
+        crate::util::running(&id.to_string(), &input);
         println!("I {} {}", id, input);
         let toks: Vec<&str> = input.split_whitespace().collect();
         let obs = exec(&toks);
